@@ -181,6 +181,16 @@ def corpus_cases():
 
 
 def shrink(case):
+    if case["kind"] == "write":
+        # restore perturbed slots one at a time
+        rng = _random.Random(1)
+        cols = SP.layout(case["annot"])["columns"]
+        for i in case.get("hit", []):
+            if i < len(cols) and i < len(case["slots"]):
+                sl = list(case["slots"])
+                sl[i] = {"key": cols[i][0], "cls": _spec_of_descr(cols[i][1]), "value": _valid_value(rng, cols[i][1])}
+                yield dict(case, slots=sl, hit=[h for h in case["hit"] if h != i])
+        return
     if case["kind"] == "field":
         t = case["text"]
         for i in range(len(t)):
@@ -222,6 +232,8 @@ def field_dontcare(d, t):
 
 
 def model_dontcare(case):
+    if case["kind"] == "write":
+        return _write_dontcare(case)
     if case["kind"] == "field":
         return field_dontcare(descr_of_spec(case["cls"]), case["text"])
     cols = SP.layout(case["annot"])["columns"]
@@ -230,8 +242,31 @@ def model_dontcare(case):
     return any(field_dontcare(d, t) for (_, d), t in zip(cols, case["fields"]))
 
 
+def _has_unmodelled(v):
+    """values whose python str() the model does not reproduce (containers in plain str(), non-ASCII case maps)"""
+    return v[0] in (7, 8, 9)
+
+
+def _write_dontcare(case):
+    for s in case["slots"]:
+        if s is None:
+            continue
+        cname = s["cls"][1] if s["cls"][0] == "src" else None
+        v = s["value"]
+        # str() of a list/tuple/object through MafColumnRecord.__string_it__ (python repr) is not modelled
+        if v[0] in (8, 9):
+            return True
+        if v[0] == 7 and not (cname or "").startswith("SequenceOf"):
+            return True
+        if v[0] == 7 and any(x[0] in (7, 8, 9, 3) for x in v[1]):
+            return True
+    return False
+
+
 # ------------------------------------------------------------------ model wire
 def to_model(case):
+    if case["kind"] == "write":
+        return write_to_model(case)
     if case["kind"] == "field":
         ft, ut = H.tables_to_model([case["text"], case["text"].capitalize()])
         return [1, H.spec_to_model(case["cls"]), S(case["text"]), ft, ut]
@@ -252,6 +287,8 @@ def _exn(sx):
 
 
 def from_model(case, sx):
+    if case["kind"] == "write":
+        return write_from_model(case, sx)
     if case["kind"] == "field":
         if sx[0] == 1:
             return {"build": _exn(sx[1])}
@@ -289,6 +326,8 @@ def _str_of(x):
 def run_impl(case):
     from maflib.validation import MafFormatException, MafValidationErrorType, ValidationStringency
     from maflib.record import MafRecord
+    if case["kind"] == "write":
+        return run_write(case)
     if case["kind"] == "field":
         cls = H.cls_of_spec(case["cls"])
         try:
@@ -428,6 +467,10 @@ def json_short(o):
 
 
 def classify(case, obs):
+    if case["kind"] == "write":
+        o = (obs or {}).get("cmp", {})
+        res = "refused" if "raise" in o else ("unbuildable" if "unbuildable" in o else "emitted")
+        return "write/%s/mode=%s/%s" % (case["stream"], MODES[case["mode"]], res)
     if case["kind"] == "field":
         d = descr_of_spec(case["cls"])
         z = SP.zone(d, case["text"])[0] if d else "?"
@@ -435,3 +478,297 @@ def classify(case, obs):
     o = (obs or {}).get("cmp", {})
     res = "raise" if "raise" in o else ("clean" if not o.get("errors") else "errors")
     return "line/%s/mode=%s/%s" % (case["stream"], MODES[case["mode"]], res)
+
+
+# ====================================================================== writer cases (C05 d, C06, C02)
+# {"kind":"write","annot":a,"slots":[None | {"key","cls","value","idx_post"?}], "mode":1|2|3, "sort":bool, "stream":s, "hit":[..]}
+import random as _random
+
+FOREIGN_CLASSES = ["StringColumn", "NullableStringColumn", "IntegerColumn", "NullableIntegerColumn", "FloatColumn",
+                   "NullableFloatColumn", "UUIDColumn", "NullableUUIDColumn", "DnaString", "NullableDnaString",
+                   "OneBasedIntegerColumn", "ZeroBasedIntegerColumn", "NullableZeroBasedIntegerColumn", "EntrezGeneId",
+                   "Canonical", "BooleanColumn", "TranscriptStrand", "SequenceOfStrings", "SequenceOfIntegers",
+                   "Strand", "VariantType", "NullableYesOrNo", "PickColumn", "MafColumnRecord", "StringOrIntegerColumn"]
+ODD_VALUES = [[0], [1, 1], [1, 0], [2, 0], [2, 1], [2, -1], [2, 7], [3, "1.5"], [3, "nan"], [4, ""], [4, "A"], [4, "a\tb"], [4, "a\nb"],
+              [4, "a\rb"], [4, ";"], [4, "x;y"], [4, "-"], [4, "ACGT"], [4, "5"], [4, "Yes"], [7, []], [7, [[4, "a"]]], [7, [[4, ";"]]],
+              [7, [[4, "a;b"]]], [7, [[4, ""]]], [7, [[2, 3]]], [7, [[1, 1]]], [8, [[4, "t"]]], [5, "StrandEnum", 0], [5, "PickEnum", 1],
+              [5, "NullableYesOrNoEnum", 0], [6, "12345678-1234-5678-1234-567812345678"], [9], [4, "é"], [4, " "], [2, 10 ** 30]]
+
+
+def _cls_spec_of_descr_col(annot, i):
+    """class spec of the layout column (source class name or RequireNullValue mix) from the pinned spec"""
+    d = SP.layout(annot)["columns"][i][1]
+    return _spec_of_descr(d)
+
+
+_DESCR_TO_CLASS = None
+
+
+def _spec_of_descr(d):
+    global _DESCR_TO_CLASS
+    if _DESCR_TO_CLASS is None:
+        import json as _j
+        _DESCR_TO_CLASS = {_j.dumps(v, sort_keys=True): k for k, v in SP.spec()["classes"].items()}
+    if d["k"] == "mustnull":
+        return ["mix", ["src", "RequireNullValue"], _spec_of_descr(d["base"])]
+    import json as _j
+    return ["src", _DESCR_TO_CLASS[_j.dumps(d, sort_keys=True)]]
+
+
+def _valid_value(rng, d):
+    """a typed value in the documented domain, as canonical JSON"""
+    for _ in range(20):
+        z = SP.zone(d, valid_text(rng, d))
+        if z[0] == "accept":
+            return z[1]
+    return [0]
+
+
+def gen_write(rng, annots=None, strict_share=0.8):
+    annot = rng.choice(annots or ANNOTS)
+    cols = SP.layout(annot)["columns"]
+    slots = []
+    for i, (name, d) in enumerate(cols):
+        slots.append({"key": name, "cls": _spec_of_descr(d), "value": _valid_value(rng, d)})
+    stream = rng.choice(["valid", "valid", "value1", "value1", "class1", "shape", "germline", "multi"])
+    hit = []
+
+    def perturb_value(i):
+        slots[i]["value"] = rng.choice(ODD_VALUES)
+        hit.append(i)
+
+    def perturb_class(i):
+        r = rng.random()
+        if r < 0.5:
+            slots[i]["cls"] = ["src", rng.choice(FOREIGN_CLASSES)]
+        elif r < 0.75 and slots[i]["cls"][0] == "mix":
+            slots[i]["cls"] = slots[i]["cls"][2]          # the un-mixed base class
+        else:
+            slots[i]["cls"] = ["src", rng.choice(FOREIGN_CLASSES)]
+            slots[i]["value"] = rng.choice(ODD_VALUES)
+        hit.append(i)
+
+    if stream == "value1":
+        perturb_value(rng.choice([0, len(cols) - 1, rng.randrange(len(cols))]))
+    elif stream == "class1":
+        perturb_class(rng.randrange(len(cols)))
+    elif stream == "germline":
+        gl = [i for i, (n, _) in enumerate(cols) if n in SP.GERMLINE6]
+        if gl:
+            i = rng.choice(gl)
+            r = rng.random()
+            if r < 0.4:
+                slots[i]["value"] = rng.choice([[4, "A"], [4, "-"], [2, 5], [2, 0], [4, "0"], [4, " "], [0], [4, ""]])
+                hit.append(i)
+            elif r < 0.8:
+                base = slots[i]["cls"][2] if slots[i]["cls"][0] == "mix" else slots[i]["cls"]
+                slots[i]["cls"] = base
+                slots[i]["value"] = rng.choice([[4, "A"], [2, 5], [0], [4, "ACGT"]])
+                hit.append(i)
+            else:
+                perturb_class(i)
+        else:
+            perturb_value(rng.randrange(len(cols)))
+    elif stream == "multi":
+        for _ in range(rng.randint(2, 4)):
+            (perturb_value if rng.random() < 0.6 else perturb_class)(rng.randrange(len(cols)))
+    elif stream == "shape":
+        r = rng.random()
+        if r < 0.25:
+            del slots[rng.randrange(len(slots))]
+        elif r < 0.45:
+            slots.append({"key": "Extra_Column", "cls": ["src", "MafColumnRecord"], "value": [4, "x"]})
+        elif r < 0.65:
+            i, j = rng.sample(range(len(slots)), 2)
+            slots[i], slots[j] = slots[j], slots[i]
+        elif r < 0.8:
+            slots[rng.randrange(len(slots) - 1)] = None
+        elif r < 0.9:
+            slots[rng.randrange(len(slots))]["key"] = "Renamed_Column"
+        else:
+            slots[rng.randrange(len(slots))]["idx_post"] = rng.choice([0, 3, 500])
+    return {"kind": "write", "annot": annot, "slots": slots, "mode": 1 if rng.random() < strict_share else rng.choice([2, 3]),
+            "sort": False, "stream": stream, "hit": sorted(set(hit))}
+
+
+def write_to_model(case):
+    sl = []
+    for i, s in enumerate(case["slots"]):
+        if s is None:
+            sl.append([])
+        else:
+            idx = s.get("idx_post", i)
+            sl.append([S(s["key"]), OPT(idx), H.spec_to_model(s["cls"]), H.value_to_model(s["value"])])
+    return [6, S(case["annot"]), sl, case["mode"]]
+
+
+def write_from_model(case, sx):
+    if sx[0] == 1:
+        return {"raise": _exn(sx[1])}
+    if sx[0] != 0:
+        return {"model-layout-problem": sx}
+    st = _res_str(sx[2])
+    if st[0] != "ok":
+        return {"raise": ["raise", st[1]]}
+    return {"errors": H.errs_from_model(sx[1]), "out": st[1] + "\n"}
+
+
+class _Buf:
+    """a text handle that remembers what was written and survives close()"""
+
+    def __init__(self):
+        self.parts = []
+        self.closed = False
+
+    def write(self, s):
+        self.parts.append(s)
+        return len(s)
+
+    def close(self):
+        self.closed = True
+
+    def text(self):
+        return "".join(self.parts)
+
+
+_CLASS_CACHE = {}
+
+
+def _class_for(annot, spec, name):
+    """class objects have identity: a synthesised class is created per scheme column, so the
+    class for a slot is looked up under the slot's own name first (the model identifies
+    synthesised classes structurally; the harness never moves one to another column)"""
+    if spec[0] == "src":
+        return H.cls_of_spec(spec)
+    key = (annot, repr(spec), name)
+    if key not in _CLASS_CACHE:
+        scheme = _scheme_for(annot)
+        found = None
+        for n in [name] + scheme.column_names():
+            c = scheme.column_class(n)
+            if c is None:
+                continue
+            try:
+                if H.spec_of_cls(c) == spec:
+                    found = c
+                    break
+            except ValueError:
+                pass
+        _CLASS_CACHE[key] = found if found is not None else H.cls_of_spec(spec)
+    return _CLASS_CACHE[key]
+
+
+def build_api_record(case):
+    """constructs the record through the public API only"""
+    from maflib.record import MafRecord
+    rec = MafRecord()
+    last = max([i for i, s in enumerate(case["slots"]) if s is not None], default=-1)
+    post = []
+    for i, s in enumerate(case["slots"][: last + 1]):
+        if s is None:
+            continue
+        cls = _class_for(case["annot"], s["cls"], s["key"])
+        col = cls(key=s["key"], value=H.dec_value(s["value"]), column_index=i)
+        rec[i] = col
+        if "idx_post" in s:
+            post.append((col, s["idx_post"]))
+    for col, k in post:
+        col.column_index = k           # a post-hoc mutation of a stored column
+    return rec
+
+
+def run_write(case):
+    from maflib.validation import MafFormatException, MafValidationErrorType, ValidationStringency
+    from maflib.header import MafHeader
+    from maflib.writer import MafWriter
+    from maflib.record import MafRecord
+    scheme = _scheme_for(case["annot"])
+    names = scheme.column_names()
+    layout = SP.layout(case["annot"])
+    header = MafHeader.from_defaults(version=layout["version"],
+                                     annotation=None if case["annot"] == layout["version"] else case["annot"])
+    mode = getattr(ValidationStringency, MODES[case["mode"]])
+    buf = _Buf()
+    extra = {"names": names}
+    try:
+        rec = build_api_record(case)
+    except Exception as e:
+        return {"cmp": {"unbuildable": H.exc_code(e)}, "extra": extra}
+    writer = MafWriter.from_fd(buf, header, validation_stringency=mode, assume_sorted=True)
+    before = buf.text()
+    try:
+        writer += rec
+        out = buf.text()[len(before):]
+        obs = {"errors": H.enc_errors(rec.validation_errors, names + ["Extra_Column", "Renamed_Column"]), "out": out}
+    except MafFormatException as e:
+        obs = {"raise": ["raise", 10, list(MafValidationErrorType).index(e.tpe), e.line_number]}
+        extra["bytes_after_refusal"] = buf.text()[len(before):]
+    except Exception as e:
+        obs = {"raise": ["raise", H.exc_code(e)]}
+        extra["bytes_after_refusal"] = buf.text()[len(before):]
+        extra["exc_type"] = type(e).__name__
+    writer.close()
+    # is what reached the output accepted by a Strict reader under the same scheme?
+    if "out" in obs:
+        lines = obs["out"].split("\n")
+        extra["n_lines"] = len(lines) - 1
+        try:
+            r2 = MafRecord.from_line(lines[0], scheme=scheme, validation_stringency=ValidationStringency.Strict)
+            extra["reread"] = "ok"
+            extra["reread_fields"] = lines[0].split("\t")
+        except MafFormatException as e:
+            extra["reread"] = "rejected:" + e.tpe.name
+            extra["reread_msg"] = str(e)[:200]
+        except Exception as e:
+            extra["reread"] = "exception:" + type(e).__name__
+    return {"cmp": obs, "extra": extra}
+
+
+def oracle_c06(case, obs):
+    """Strict writer: what reaches the output is accepted by a Strict reader; refusals use the format exception and emit nothing"""
+    out = []
+    if case["kind"] != "write" or case["mode"] != 1:
+        return out
+    o, ex = obs["cmp"], obs.get("extra", {})
+    if "unbuildable" in o:
+        return out
+    if "raise" in o:
+        if o["raise"][1] != 10:
+            out.append("refused-with-other-exception/%s | slots hit %s" % (ex.get("exc_type"), case.get("hit")))
+        if ex.get("bytes_after_refusal"):
+            out.append("refused-record-left-bytes | %r" % ex["bytes_after_refusal"][:80])
+        return out
+    if ex.get("n_lines") != 1:
+        out.append("emitted-line-breaks-framing | %d lines for one record" % ex.get("n_lines", -1))
+    if ex.get("reread") != "ok":
+        sig = "emitted-line-rejected-by-strict-reader"
+        # structural signature: which (scheme class <- object class, value kind) pairs were perturbed
+        pairs = []
+        cols = SP.layout(case["annot"])["columns"]
+        for i in case.get("hit", []):
+            s = case["slots"][i] if i < len(case["slots"]) else None
+            if s is not None and i < len(cols):
+                pairs.append("%s<-%s:%s" % (_name(_spec_of_descr(cols[i][1])), _name(s["cls"]), s["value"][0]))
+        out.append("%s/%s | %s" % (sig, ",".join(sorted(set(pairs))) or "?", ex.get("reread_msg", ex.get("reread"))))
+    return out
+
+
+def _name(spec):
+    return spec[1] if spec[0] == "src" else "Mix(%s,%s)" % (_name(spec[1]), _name(spec[2]))
+
+
+def oracle_c05_write(case, obs):
+    out = []
+    if case["kind"] != "write" or case["mode"] != 1 or case["annot"] not in SP.MASKED_LAYOUTS:
+        return out
+    o, ex = obs["cmp"], obs.get("extra", {})
+    if "out" not in o:
+        return out
+    fields = o["out"].rstrip("\n").split("\t")
+    names = ex.get("names", [])
+    for g in SP.GERMLINE6:
+        if g in names:
+            i = names.index(g)
+            if i < len(fields) and fields[i] != "":
+                out.append("strict-writer-emitted-germline-value | %s=%r" % (g, fields[i]))
+    return out
